@@ -30,6 +30,9 @@ def plan(tier, seed):
     cases += [{'family': 'convergent', 'cseed': rnd.randrange(1 << 30)} for _ in range(16 if tier == 'quick' else 300)]
     # circuits whose edges run through EdgeTemplates (incl. two-input edge operators): every swept circuit has its own edge instances
     cases += [{'family': 'edge_templates', 'cseed': rnd.randrange(1 << 30)} for _ in range(16 if tier == 'quick' else 300)]
+    # a grid with a single row (sweeps are also used to run one parametrization): labelled like any other
+    fam = 'probe:single_row_grid' if 'single_row_grid' in open_risks(PID) else 'main'
+    cases += [{'family': fam, 'cseed': rnd.randrange(1 << 30), 'want': 'single_row_grid'} for _ in range(6 if tier == 'quick' else 60)]
     return cases
 
 
@@ -68,9 +71,12 @@ def run_case(case, ctx):
     # mostly small grids; sometimes 8-12 rows, so that the merged (vectorized) sweep crosses the size thresholds of the
     # index-based / matrix edge forms (edges per circuit x rows >= 10)
     n_rows = rnd.randint(2, 5) if rnd.random() < 0.7 and not convergent else rnd.randint(6, 12)
+    if case.get('want') == 'single_row_grid':
+        n_rows = 1
+        res['risk'] = ['single_row_grid']
     if n_rows >= 8:
         mech['large_grids'] = 1
-    permute = rnd.random() < 0.3 and not convergent
+    permute = rnd.random() < 0.3 and not convergent and n_rows > 1
     vals = gen.Vals(rnd)
     for o in base['ops'].values():
         for v, d in o['vars'].items():
@@ -144,7 +150,7 @@ def run_case(case, ctx):
         mech['input_sweeps'] = 1
     res['sig'] = stable_hash([base, param_map, grid, permute, vec])
     res['features'] = feats + ['vec' if vec else 'novec', 'permute' if permute else 'linear']
-    res['nontrivial'] = len(grid) >= 1 and max(len(v) for v in grid.values()) >= 2
+    res['nontrivial'] = len(grid) >= 1 and (max(len(v) for v in grid.values()) >= 2 or n_rows == 1)
 
     # the grid may also be given as a pandas DataFrame (documented), whose integer index need not be 0..N-1 in order
     frame = None if permute else rnd.choice([None, None, 'default', 'shuffled', 'offset', 'sorted'])
